@@ -131,6 +131,10 @@ structure Book where
   clones : List (Nat × Nat × Nat × Nat) := []   -- (w, via, c, line)
   tmos : List Int := []
   viol : Option String := none
+  /-- scenario family `live`: every subscriber is received from without limit from the moment it is subscribed (and there is no
+  timeout), so no call can block for good: at the quiescent end every call has returned and every event — of the asynchronous
+  variants too — has reached every subscriber that stayed subscribed -/
+  live : Bool := false
 
 def Book.flag (b : Book) (m : String) : Book :=
   match b.viol with
@@ -236,7 +240,16 @@ def checkExit (cfg : Cfg) (b : Book) : Book :=
       (P.v.isSync || P.v.isWait) &&
       b.chs.any (fun ch => throughout b P ch r && decide (ch.recvs.length < ch.allowTotal) && !ch.closedSeen &&
         P.evs.any (fun v => !ch.recvs.contains v && !(decide (cfg.timeout > 0) && b.tmos.contains v))))
-  if lost then b.flag "violated:lost" else b
+  let b : Book := if lost then b.flag "violated:lost" else b
+  if !b.live then b else
+  let stuck := b.pubs.any (fun P => P.retAt.isNone) || b.chs.any (fun ch => ch.subretAt.isNone)
+  let b : Book := if stuck then b.flag "violated:call-never-returned-although-every-subscriber-is-received-from" else b
+  -- "eventually": quiescent, all receivers live, no timeout — every event of every publish (asynchronous ones included) through the
+  -- root has been received by every subscriber that was subscribed before the call and was never removed
+  let dropped := b.pubs.any (fun P => P.via == 0 &&
+    b.chs.any (fun ch => lt? ch.subretAt P.invAt && ch.touchedAt.isNone && !ch.closedSeen &&
+      P.evs.any (fun v => !ch.recvs.contains v)))
+  if dropped && cfg.timeout ≤ 0 then b.flag "violated:event-never-delivered-to-a-subscriber-that-stayed-subscribed" else b
 
 
 def touch (b : Book) (pred : ChRec → Bool) : Book :=
@@ -294,6 +307,7 @@ def step (j : J) (toks : List Val) (_impl : String) : J × Out :=
   match toks with
   | [.w "ps", .i t, .i d] =>
     ({ cfg := { timeout := t, defBuf := d.toNat }, ss := [{}], rej := none, book := {} }, { model := "ok", spec := some "ok", tags := ["ps"] })
+  | [.w "live"] => ({ j with book := { j.book with live := true } }, { model := "ok", spec := some "ok", tags := ["live"] })
   | _ =>
     match parseEvent toks with
     | none => (j, { model := "bad-op" })
